@@ -45,6 +45,22 @@ CLAIMED = {
  "C09": ("proof", "6/C09", "find_links is verified against the membership predicate `qual` of the statement (result set = {l in links(a) : joins a,b and qualifies}); "
          "the agreement with neighbors() is proved pointwise per link (qualifies <=> contributes [b]) and lifted to sizes by the Lean counting lemma; "
          "'empty after unlink, other pairs untouched' is a lemma over unlink's contract."),
+ "C10": ("other", "12.12/C10", "Two labelled parts; the property as a whole is NOT proved. (1) PROVED by contracts on the real code: the mechanism C10 is "
+         "anchored in. _NonrecursivePickler.lazywrite / lazymemoize / save are verified against the three cases of `applyTok` (perform at once "
+         "while nothing is pending, otherwise queue in stream order; save never performs anything), and dump is verified - two nested loop "
+         "invariants, break and re-queueing of the tail included - against: the real writes and memoisations it performs are the protocol header, "
+         "then pk_exec([save obj]) = the depth-first, left-to-right execution a recursive pickler performs, then STOP, and nothing is left pending. "
+         "dill.Pickler.save is NOT verified: it enters as an assumed contract (a token list fed in order to write / memoize / save, touching the queue "
+         "only through them); the scheduler lemma exec_apply that connects applyTok with pk_exec is checked by Lean (lean/Scheduler.lean). Syntactic "
+         "layout conditions (A13): __init__ binds lazywrites / write / realwrite, nothing else rebinds them, realsave is called from dump only (so "
+         "Python's stack depth does not grow with the graph: the drain loop is the only caller of dill's save), queue items are plain records that "
+         "are only appended. The cache plumbing of Vertex is verified against contracts that need no statistics entry (a copy un-pickled "
+         "into a fresh interpreter is usable with caching on). (2) BOUNDED stand-in, every run, never counted as proved: the round trip itself "
+         "(byte stream -> isomorphic detached copy) depends on dill / pickle internals outside the verifier's reach; the explorer operations "
+         "pickle_roundtrip / pickle_deep dump pool graphs (cycles, self-loops, parallel edges, nested universes, subclasses, runtime attributes, "
+         "shared empty containers, warm caches) with protocols 0-5, load with pickle and dill, compare classes, uids, attributes, ordered links / "
+         "ends / members / universes, sharing and detachment, then query and mutate the copy with caching on after the class-level statistics "
+         "were forgotten, and pickle chains of 700-1000 vertices with 80 frames of head room. Loading in a real second process is not exercised."),
  "C11": ("proof", "12.5/C11", "load_adj_dict is verified (both nested loops, all paths) against a contract that gives the whole post-heap: the result is a "
          "new universe whose members are Dedup(mention order) (each key, then its row), every mentioned vertex gets exactly that one more universe, "
          "and there is a ghost sequence C of created links (creation order) - distinct, new (nothing that existed refers to them), of exactly the "
@@ -130,12 +146,9 @@ CLAIMED = {
          "constructor values. UniverseLaws.__init__ (edge_whitelist copying) is a TRUSTED contract here (outside the symbolic subset)."),
 }
 NA = {
- "C10": ("No contract within reach of the verifier can express or decide the round trip: nrpickler drives CPython's C pickler (copyreg / __reduce_ex__, "
-         "dispatch tables, memo ids) and dill, and loading happens in pickle's VM, possibly in another interpreter - the code that would need a contract "
-         "is not Python source of the repository. A contract on _NonrecursivePickler's scheduler alone (work-list drained, no Python recursion) decides "
-         "only the no-RecursionError clause, and a bounded round-trip comparison would be a different technique (testing), so nothing is claimed. "
-         "C05's un-pickling clause is stated there as an explicit assumption."),
 }
+TECH = {"C10": "contract-based deductive verification of the work-list scheduler (VCs from the repo's AST, z3; scheduler lemma in Lean) over an assumed "
+               "contract of dill's save + labelled bounded round-trip stand-in (exploration) for the part no contract can reach"}
 checks = []
 for pid, (cat, ref, text) in CLAIMED.items():
     checks.append({
@@ -147,7 +160,7 @@ for pid, (cat, ref, text) in CLAIMED.items():
         "engine": "pyvc",
         "level_claimed": {"category": cat, "text": text, "design_ref": ref},
         "level_note": BASE_NOTE,
-        "technique": "contract-based deductive verification: VCs generated from the repo's AST against sidecar contracts + loop invariants, discharged by z3/cvc5",
+        "technique": TECH.get(pid, "contract-based deductive verification: VCs generated from the repo's AST against sidecar contracts + loop invariants, discharged by z3/cvc5"),
     })
 m = {
  "version": 1,
